@@ -29,8 +29,8 @@ RtE(uri) == [proto |-> "", host |-> "", port |-> 0, rport |-> 0, params |-> <<>>
 AddrE(uri, tag) == [RtE(uri) EXCEPT !.hparams = IF tag = "" THEN <<>> ELSE << <<"tag", tag>> >>]
 ViaE(proto, host, port, params, rport) == [proto |-> proto, host |-> host, port |-> port, rport |-> rport, params |-> params,
                                            disp |-> "", uri |-> EmptyUri, hparams |-> <<>>, bad |-> FALSE]
-Line(cls, nm, ents) == [cls |-> cls, nm |-> nm, val |-> "", ents |-> ents]
-Oth(cls, nm, val) == [cls |-> cls, nm |-> nm, val |-> val, ents |-> <<>>]
+Line(cls, nm, ents) == [cls |-> cls, nm |-> nm, cn |-> nm, val |-> "", ents |-> ents]
+Oth(cls, nm, val) == [cls |-> cls, nm |-> nm, cn |-> nm, val |-> val, ents |-> <<>>]
 LR == << <<"lr", NoVal>> >>
 
 \* Route entry symbols
@@ -194,6 +194,17 @@ ReqOK == rc.kind = "req" =>
 RespOK == rc.kind = "resp" =>
                /\ JudgeC02(Env, RespMsg, OResponse(Env, RespMsg)) = ""
                /\ JudgeC01(RespMsg, OResponse(Env, RespMsg)) = ""
+
+\* leg M of C17: the line-level operators commute with regrouping - the same message with every list entry on a line
+\* of its own is treated the same
+Ones(n) == [i \in 1..n |-> 1]
+ReqMsgFlat == [ReqMsg EXCEPT !.hdrs = Body(rc.order, ToLines("via", "Via", Group(ViaStackOf(rc.nvia, rc.rport), Ones(rc.nvia))),
+                                            ToLines("rr", "Record-Route", Group(RRStackOf(rc.nrr), Ones(rc.nrr))),
+                                            ToLines("route", "Route", Group(RouteEnts, Ones(Len(route)))), ToLine)]
+RespMsgFlat == [RespMsg EXCEPT !.hdrs = Body(rc.order, ToLines("via", "Via", Group(RespStack, Ones(Len(RespStack)))),
+                                              ToLines("rr", "Record-Route", Group(RRStackOf(rc.nrr), Ones(rc.nrr))), <<>>, ToLine)]
+TwinOK == IF rc.kind = "req" THEN JudgeC17(ReqMsg, ReqOuts, ReqMsgFlat, ORequest(Env, ReqMsgFlat, Pick).outs) = ""
+          ELSE JudgeC17(RespMsg, OResponse(Env, RespMsg), RespMsgFlat, OResponse(Env, RespMsgFlat)) = ""
 
 \* anti-vacuity witnesses: TLC must violate these
 Reach_Backend == ~(rc.kind = "req" /\ Len(ReqOuts) = 1 /\ ReqOuts[1].kind = "backend")
